@@ -276,7 +276,7 @@ fn run_c20(id: &'static str, tier: Tier, seed: u64, ctx: &Ctx, sh: u32) -> Evide
     }
     // public accessors must not panic under concurrency either (overflow checks on)
     let sp = ConcCampaign { name: "queue-sampler-panic", focus: QRule::Panic };
-    if !driver::run_random(&sp, &ev, ctx, scale(tier.pick(40, 600)), 2) {
+    if !driver::run_random(&sp, &ev, ctx, scale(tier.pick(1_000, 8_000)), 8) {
         return ev;
     }
     for t in [Target::Fmt, Target::Mlw, Target::Api] {
